@@ -21,6 +21,12 @@ func fieldVal[T any](obj yobj, key string) (v T, ok bool, err error) {
 	}
 
 	if val == nil {
+		if _, isObj := any(v).(yobj); isObj {
+			// A null object, e.g. a section key with no value, has nothing to
+			// migrate and must not be written to, so treat it as absent.
+			return v, false, nil
+		}
+
 		return v, true, nil
 	}
 
